@@ -10,7 +10,7 @@ rc=0
 shopt -s nullglob
 for p in selftest/$ID/*.patch seeded/$ID*/patch.diff; do
   rm -rf "$SCR/repo"; mkdir -p "$SCR/repo"
-  (cd /repo && git ls-files -z --cached --others --exclude-standard | xargs -0 cp --parents -t "$SCR/repo" 2>/dev/null)
+  (cd "${VERIF_REPO:-/repo}" && git ls-files -z --cached --others --exclude-standard | xargs -0 cp --parents -t "$SCR/repo" 2>/dev/null)
   if ! (cd "$SCR/repo" && patch -p1 -s < "/verif/$p"); then echo "SELFTEST $ID $p: patch does not apply (skipped)"; continue; fi
   out=$(VERIF_NO_EVIDENCE=1 bin/govc verify -property "$ID" -tier quick -repo "$SCR/repo" -noevidence 2>&1); c=$?
   if [ $c -eq 1 ]; then echo "SELFTEST $ID $p: detected"; else
